@@ -29,7 +29,13 @@ func (o *accountingObserver) check(ssn *framework.Session, where string) {
 	if len(o.problems) > 20 {
 		return
 	}
-	o.problems = append(o.problems, sessioncheck.Accounting(ssn, where, o.tr)...)
+	ps := sessioncheck.Accounting(ssn, where, o.tr)
+	if os.Getenv("VERIF_C14_TRACE") != "" {
+		for _, p := range ps {
+			fmt.Printf("  trace:   PROBLEM %s\n", p.Msg)
+		}
+	}
+	o.problems = append(o.problems, ps...)
 }
 
 func (o *accountingObserver) SessionOpened(ssn *framework.Session) {
